@@ -171,10 +171,16 @@ def coqc_file(path, timeout=1200, cwd=None):
 # Known findings
 # ----------------------------------------------------------------------------
 def load_known():
-    p = os.path.join(VERIF, "KNOWN_FINDINGS.json")
-    if not os.path.exists(p):
-        return []
-    return json.load(open(p)).get("findings", [])
+    """KNOWN_FINDINGS.json plus per-property fragments known_findings/Cxx.json (same format)."""
+    out = []
+    files = [os.path.join(VERIF, "KNOWN_FINDINGS.json")]
+    d = os.path.join(VERIF, "known_findings")
+    if os.path.isdir(d):
+        files += [os.path.join(d, f) for f in sorted(os.listdir(d)) if f.endswith(".json")]
+    for p in files:
+        if os.path.exists(p):
+            out += json.load(open(p)).get("findings", [])
+    return out
 
 
 # ----------------------------------------------------------------------------
